@@ -24,6 +24,7 @@ type PropConfig struct {
 	Note      string   `json:"note"`
 	NoFrame   bool     `json:"no_frame"`
 	YAMLTree  bool     `json:"yaml_tree_values"`
+	LockSweep bool     `json:"lock_sweep"`
 	Functions []string `json:"functions"` // optional explicit list "pkg::Key"
 }
 
@@ -166,6 +167,7 @@ func cmdCheck(args []string) int {
 	s.noFrame = cfg.NoFrame
 	s.probeFalse = *probeFalse
 	s.yamlTree = cfg.YAMLTree
+	s.lockSweep = cfg.LockSweep
 	tLoad := time.Since(t0).Seconds()
 
 	// select contracts
@@ -225,6 +227,58 @@ func cmdCheck(args []string) int {
 			funcsUnder = append(funcsUnder, k+instSuffix(tf, fn))
 		}
 	}
+	if cfg.LockSweep && *only == "" || cfg.LockSweep && *only != "" {
+		have := map[*ssa.Function]bool{}
+		for _, vc := range vcs {
+			have[vc.fn] = true
+		}
+		for _, f := range s.lockSweepTargets(cfg.Packages, *prop) {
+			if have[f] {
+				continue
+			}
+			if c := s.contractFor(f); c != nil {
+				// has an explicit contract for another property: verify it under that contract for the lock obligations
+				if c.Trusted {
+					continue
+				}
+				if *only != "" && !strings.Contains(c.Key, *only) {
+					continue
+				}
+				vc, err := s.verifyFunc(f, c)
+				if err != nil {
+					stale = append(stale, fmt.Sprintf("%s: %v", c.Key, err))
+					continue
+				}
+				vc.lockOnly = true
+				vcs = append(vcs, vc)
+				funcsUnder = append(funcsUnder, c.Pkg+"::"+c.Key+" (lock obligations)")
+				continue
+			}
+			pk, key := funcKey(f)
+			if *only != "" && !strings.Contains(key, *only) {
+				continue
+			}
+			ic := &Contract{Key: key, Pkg: pk, ModAll: true, HasMod: true, Loops: map[int]*LoopSpec{}, Nullable: map[string]bool{}, Unroll: map[int]int{}, Implicit: true}
+			for _, p := range f.Params {
+				if f.Signature.Recv() != nil && p == f.Params[0] {
+					ic.RecvName = p.Name()
+					continue
+				}
+				ic.Params = append(ic.Params, p.Name())
+			}
+			for i := 0; i < f.Signature.Results().Len(); i++ {
+				ic.Results = append(ic.Results, fmt.Sprintf("r%d", i))
+			}
+			vc, err := s.verifyFunc(f, ic)
+			if err != nil {
+				stale = append(stale, fmt.Sprintf("%s: %v", key, err))
+				continue
+			}
+			vc.lockOnly = true
+			vcs = append(vcs, vc)
+			funcsUnder = append(funcsUnder, pk+"::"+key+" (implicit: entered with no lock held)")
+		}
+	}
 	if len(stale) > 0 {
 		for _, m := range stale {
 			fmt.Printf("STALE-CONTRACT property=%s %s\n", *prop, m)
@@ -266,6 +320,9 @@ func cmdCheck(args []string) int {
 	for _, vc := range vcs {
 		for i, it := range vc.items {
 			if it.Kind != ItemOblig {
+				continue
+			}
+			if vc.lockOnly && !(strings.HasPrefix(it.Name, "lock:") || strings.HasPrefix(it.Name, "pre:") && strings.Contains(it.Info, "held(") || strings.HasPrefix(it.Name, "callsite:")) {
 				continue
 			}
 			r := &OblResult{Func: vc.contract.Pkg + "::" + vc.contract.Key + vc.instSuffix(), Name: it.Name, Info: it.Info, vc: vc, idx: i, Cover: strings.HasPrefix(it.Name, "cover:") || strings.HasPrefix(it.Name, "reach:"), Info2: strings.HasPrefix(it.Name, "reach:")}
@@ -365,6 +422,7 @@ func cmdCheck(args []string) int {
 	byBackend := map[string]int{}
 	solverTime := 0.0
 	var failed []*OblResult
+	knownOpen := 0
 	var unreachable []string
 	covers := 0
 	for _, r := range results {
@@ -402,9 +460,20 @@ func cmdCheck(args []string) int {
 	replayDir := filepath.Join(*verif, "out", "replay", *prop)
 	os.MkdirAll(replayDir, 0o755)
 	kf := loadKnownFindings(*verif)
+	failedFn := map[string]bool{}
 	for _, r := range failed {
+		if !r.Cover {
+			failedFn[r.Func] = true
+		}
+	}
+	for _, r := range failed {
+		if r.Cover && failedFn[r.Func] {
+			continue // a failed obligation was assumed afterwards: the unreachable return is a consequence, not a finding
+		}
 		if f := kf.match(*prop, r); f != nil {
 			fmt.Printf("KNOWN-FINDING: property=%s %s\n", *prop, f.What)
+			total-- // recorded defect: not part of the proved obligations, listed separately in the evidence
+			knownOpen++
 			continue
 		}
 		violations++
@@ -423,7 +492,7 @@ func cmdCheck(args []string) int {
 			}
 			writeReplay(rp, *prop, r)
 		}
-		if r.Verdict == "sat" {
+		if r.Verdict == "sat" || strings.HasPrefix(r.Name, "lock:") {
 			if ok := tryReplay(s, *verif, *prop, r, rp); ok {
 				suffix = ""
 			}
@@ -440,6 +509,9 @@ func cmdCheck(args []string) int {
 		return 2
 	}
 	wall := time.Since(t0).Seconds()
+	if knownOpen > 0 {
+		fmt.Printf("property %s: %d obligations fail as recorded in known_findings.json (open findings)\n", *prop, knownOpen)
+	}
 	fmt.Printf("property %s: %d functions under contract, %d obligations, %d discharged, %d covers, load %.1fs gen %.1fs wall %.1fs solver %.1fs\n",
 		*prop, len(vcs), total, discharged, covers, tLoad, tGen-tLoad, wall, solverTime)
 	if !*noEvidence && *only == "" && *overlayF == "" {
